@@ -55,6 +55,21 @@ type finding struct {
 	Class       string `json:"class"`  // exact class, or prefix when it ends in '*'
 	Commit      string `json:"commit,omitempty"`
 	Description string `json:"description"`
+	// InputsFile (relative to the root): when set, the finding covers only the listed inputs - one
+	// hex digest (first 8 bytes of the SHA-256 of the violation's input JSON) per line; a violation of
+	// a matching class whose input is not listed is reported as a violation.
+	InputsFile string `json:"inputs_file,omitempty"`
+	inputs     map[string]bool
+}
+
+// InputDigest is the identity of a case in an inputs file.
+func InputDigest(input interface{}) string {
+	raw, err := json.Marshal(input)
+	if err != nil {
+		raw, _ = json.Marshal(fmt.Sprintf("%+v", input))
+	}
+	sum := sha256.Sum256(raw)
+	return hex.EncodeToString(sum[:8])
 }
 
 // Ctx is the run context of a check.
@@ -335,6 +350,19 @@ func loadFindings(root string) []finding {
 		fmt.Fprintln(os.Stderr, "known_findings.json:", err)
 		return nil
 	}
+	for i := range f.Findings {
+		if fn := f.Findings[i].InputsFile; fn != "" {
+			f.Findings[i].inputs = map[string]bool{}
+			data, err := os.ReadFile(filepath.Join(root, fn))
+			if err != nil {
+				fmt.Fprintln(os.Stderr, "known findings inputs file:", err)
+				continue
+			}
+			for _, l := range strings.Fields(string(data)) {
+				f.Findings[i].inputs[l] = true
+			}
+		}
+	}
 	return f.Findings
 }
 
@@ -356,11 +384,31 @@ func (c *Ctx) Finish() int {
 	var unknown []*Violation
 	var known []string
 	sort.Strings(c.violOrder)
+	listed := map[int]int64{} // finding index -> matched cases (findings limited to listed inputs print one line)
+	var dump []string
 	for _, k := range c.violOrder {
 		v := c.viol[k]
 		matched := false
-		for _, f := range findings {
+		for fi, f := range findings {
 			if f.Property == c.ID && f.Status == "finding" && matchClass(f.Class, v.Class) {
+				if f.InputsFile != "" {
+					sum := sha256.Sum256(v.Input)
+					d := hex.EncodeToString(sum[:8])
+					dump = append(dump, d)
+					if !f.inputs[d] {
+						continue
+					}
+					matched = true
+					if listed[fi] == 0 {
+						known = append(known, f.Class)
+						if data, err := json.MarshalIndent(v, "", " "); err == nil {
+							cs := sha256.Sum256([]byte(f.Class))
+							os.WriteFile(filepath.Join(root, "replays", fmt.Sprintf("known-%s-%s.json", c.ID, hex.EncodeToString(cs[:4]))), data, 0o644)
+						}
+					}
+					listed[fi] += v.Count
+					break
+				}
 				matched = true
 				fmt.Printf("KNOWN-FINDING: property=%s class=%s cases=%d %s\n", c.ID, v.Class, v.Count, f.Description)
 				known = append(known, v.Class)
@@ -374,6 +422,17 @@ func (c *Ctx) Finish() int {
 		}
 		if !matched {
 			unknown = append(unknown, v)
+		}
+	}
+	for fi, n := range listed {
+		f := findings[fi]
+		fmt.Printf("KNOWN-FINDING: property=%s class=%s cases=%d (of %d listed inputs, %s) %s\n", c.ID, f.Class, n, len(f.inputs), f.InputsFile, f.Description)
+	}
+	if p := os.Getenv("VERIF_DUMP_KNOWN_INPUTS"); p != "" && len(dump) > 0 {
+		// maintenance only (tools/known_inputs.sh): never set by a registered command
+		if fh, err := os.OpenFile(p, os.O_APPEND|os.O_CREATE|os.O_WRONLY, 0o644); err == nil {
+			fmt.Fprintln(fh, strings.Join(dump, "\n"))
+			fh.Close()
 		}
 	}
 	for _, v := range unknown {
